@@ -1,6 +1,6 @@
-"""C11 — TxnTrace.tla (binding V over D-TXN)."""
+"""C11 — Txn.tla (design + exported histories, binding R) and TxnTrace.tla (binding V) over D-TXN."""
 from vlib import dtxn
-LEVEL = "fault_enumeration"
+LEVEL = "model_checking"
 
 
 def run(ctx):
